@@ -229,6 +229,14 @@ func vandaliseBundle(b *bundle.Bundle) {
 }
 
 func init() {
+	// version.Parse: exactly the two version names, as spelled
+	regOp("bver_parse", func(a []Sx) Sx {
+		v, ok := bver.Parse(string(a[0].B))
+		if !ok {
+			return L(Sym("bad"))
+		}
+		return L(Sym("ok"), B([]byte(string(v))))
+	})
 	regOp("bundle_write", func(a []Sx) (res Sx) {
 		defer func() {
 			if r := recover(); r != nil {
@@ -250,7 +258,13 @@ func init() {
 			pre = 16
 			w = cw
 		}
+		// the same object is written twice (a retry, a second destination): both writes must agree
+		var first bytes.Buffer
+		n0, err0 := b.WriteTo(&first)
 		n, err := b.WriteTo(w)
+		if (err0 == nil) != (err == nil) || n0 != n || (err == nil && !bytes.Equal(first.Bytes(), buf.Bytes()[pre:])) {
+			return L(Sym("second_write_differs"))
+		}
 		if err != nil {
 			return L(Sym("err"), Zi(n))
 		}
